@@ -15,6 +15,7 @@
 //        joint <name> <body> <class|-> <type 0 free|1 ball|2 slide|3 hinge> ax ay az <k> (<attr> <val>)*k   attr: damp arm stiff lo hi lim ref sref
 //        geom <name> <body> <frame|-> <class|-> px py pz ORI <k> (<attr> <val>)*k     attr: type s0 s1 s2 dens
 //        attach <frame of spec 0> <body of spec 1> <prefix>
+//        attachx <parent spec> <frame> <child spec> <body> <prefix>      nested attachment (specs 0..7), executed in the order given
 //        rt <edit> ... | presteps <n> | recompile           runtime-edit protocol (see run_setconst): spec 0 = base, spec 2 = edited spec
 //        qvel <v>                                          initial velocity of every dof
 //        sim <nsteps>
@@ -152,8 +153,8 @@ static std::string run_setconst(mjSpec* base, mjSpec* edited, const std::vector<
 }
 
 static void build_and_run(const Toks& t) {
-  Ctx cs[3];
-  cs[2].s = NULL;
+  Ctx cs[8];
+  for (int k = 1; k < 8; k++) cs[k].s = NULL;
   std::vector<Toks> rtedits;
   int presteps = 0;
   bool recompile = false;
@@ -170,7 +171,7 @@ static void build_and_run(const Toks& t) {
       if (cmd == "spec") {
         need(i + 1 < t.size(), "spec id");
         int id = atoi(t[i + 1].c_str());
-        need(id == 0 || id == 1 || id == 2, "spec id");
+        need(id >= 0 && id < 8, "spec id");
         if (!cs[id].s) cs[id].s = mj_makeSpec();
         c = &cs[id];
         i += 2;
@@ -290,6 +291,16 @@ static void build_and_run(const Toks& t) {
         mjsElement* r = mjs_attach(cs[0].frames[t[i + 1]]->element, cs[1].bodies[t[i + 2]]->element, t[i + 3].c_str(), "");
         if (!r) throw Fail{std::string("mjs_attach failed: ") + mjs_getError(cs[0].s)};
         i += 4;
+      } else if (cmd == "attachx") {
+        // attachx <parent spec> <frame of the parent spec> <child spec> <body of the child spec> <prefix>   (nested attachment)
+        need(i + 5 < t.size(), "attachx");
+        int ps = atoi(t[i + 1].c_str()), chs = atoi(t[i + 3].c_str());
+        need(ps >= 0 && ps < 8 && chs >= 0 && chs < 8 && ps != chs && cs[ps].s && cs[chs].s, "attachx spec ids");
+        need(cs[ps].frames.count(t[i + 2]), "unknown attach frame");
+        need(cs[chs].bodies.count(t[i + 4]), "unknown child body");
+        mjsElement* r = mjs_attach(cs[ps].frames[t[i + 2]]->element, cs[chs].bodies[t[i + 4]]->element, t[i + 5].c_str(), "");
+        if (!r) throw Fail{std::string("mjs_attach failed: ") + mjs_getError(cs[ps].s)};
+        i += 6;
       } else if (cmd == "rt") {
         // runtime edit of the compiled model: rt bmass <body> <scale> | rt bpos <body> x y z | rt jarm|jdamp|jsref <joint> <v>
         need(i + 3 < t.size(), "rt");
@@ -311,7 +322,7 @@ static void build_and_run(const Toks& t) {
     }
     if (recompile) {
       result = run_setconst(cs[0].s, cs[2].s, rtedits, presteps, nsteps, qvel0);
-      for (int k = 0; k < 3; k++) if (cs[k].s) { mj_deleteSpec(cs[k].s); cs[k].s = NULL; }
+      for (int k = 7; k >= 0; k--) if (cs[k].s) { mj_deleteSpec(cs[k].s); cs[k].s = NULL; }
       printf("%s\n", result.c_str());
       return;
     }
@@ -371,9 +382,7 @@ static void build_and_run(const Toks& t) {
     result = "err " + f.msg;
     for (char& ch : result) if (ch == '\n' || ch == '\r') ch = ' ';
   }
-  if (cs[2].s) mj_deleteSpec(cs[2].s);
-  if (cs[1].s) mj_deleteSpec(cs[1].s);
-  if (cs[0].s) mj_deleteSpec(cs[0].s);
+  for (int k = 7; k >= 0; k--) if (cs[k].s) mj_deleteSpec(cs[k].s);
   printf("%s\n", result.c_str());
 }
 
